@@ -231,7 +231,9 @@ def run(pid, tier, seed, ev, count, hostile_names=False, modes=("t", "x", "e", "
                 m["produced"] = len(inner)
                 m["good"] = bool(t["good"])
                 m["data"] = t["data"] if (mode == "p" and "n" not in opts) else []
-                m["exists"] = ("i" not in opts or True) and g.path in pre
+                # (what the dry run remarks on is the output path: under option i that is the last component, so a member deeper in the
+                #  archive can meet a file that was put there for a top-level member of the same name)
+                m["exists"] = (g.path.rstrip(b"/").split(b"/")[-1] if ("i" in opts and g.kind != "dir") else g.path) in pre
                 if g.path in blocked:
                     m["produced"], m["good"] = 0, False
                 mm.append(m)
